@@ -54,12 +54,15 @@ def mll_case(draw, **kw):
     if case["lik"]["l"] == "Gaussian" or case["lik"].get("learn"):
         slots.append((case["lik"], "noise"))
     nprior = 0
+    # one prior recipe (and, when share_priors is set, one Prior *object*) for all positive slots in a third of the cases
+    common = draw(PR.prior_recipe(positive=True)) if draw(st.integers(0, 2)) == 0 else None
     for h, pn in slots:
-        if draw(st.integers(0, 2)) == 0:
+        if draw(st.integers(0, 2)) == 0 or (common is not None and draw(st.booleans())):
             positive = not (h is case["mean"])
-            h.setdefault("priors", {})[pn] = draw(PR.prior_recipe(positive=positive))
+            h.setdefault("priors", {})[pn] = common if (common is not None and positive) else draw(PR.prior_recipe(positive=positive))
             nprior += 1
     case["n_priors"] = nprior
+    case["share_priors"] = common is not None and draw(st.booleans())
     case["objective"] = draw(st.sampled_from(["mll", "mll", "mll", "loo"]))
     case["max_chol"] = 800
     return case
@@ -159,7 +162,8 @@ def run_mll(case, ctx: Ctx):
     n = case["n"]
     res_batch = torch.broadcast_shapes(torch.Size(case["mb"]), torch.Size(case["xb"]))
     with ctx.observing("build"):
-        model, lik = G.build_exact(case)
+        with kern.shared_priors(bool(case.get("share_priors"))):
+            model, lik = G.build_exact(case)
         model.train()
         lik.train()
     slots = param_slots(case, model, lik)
@@ -222,7 +226,7 @@ def run_mll(case, ctx: Ctx):
         ctx.close(f"grad.{key}", gg.reshape(-1), gw.reshape(-1), rtol=max(tol, 1e-7), atol=max(tol, 1e-8) * max(1.0, kappa ** 0.5), scale=gscale)
     ctx.set_nontrivial(n >= 2 and (case["n_priors"] > 0 or bool(case["mb"]) or bool(case["xb"]) or case["lik"]["l"] != "Gaussian"))
     ctx.label(f"objective={case['objective']}", f"lik={case['lik']['l']}{'+' if case['lik'].get('learn') else ''}", f"mb={case['mb']}", f"xb={case['xb']}",
-              f"n_priors={min(case['n_priors'], 4)}", f"mean={case['mean']['m']}", *{f"leaf={l['k']}" for l in kern.leaves(case["kernel"])},
+              f"n_priors={min(case['n_priors'], 4)}", f"mean={case['mean']['m']}", f"share_priors={bool(case.get('share_priors'))}", *{f"leaf={l['k']}" for l in kern.leaves(case["kernel"])},
               *{f"prior={pr['pr']}" for h in _holders(case) + [case['mean'], case['lik']] for pr in (h.get('priors') or {}).values()})
 
 
